@@ -152,8 +152,13 @@ def handle(mod: Any, pid: str, case: Any, tier: str, stats: Stats, stage: str) -
             stats.failures.append({"case": cj, "failure": out.failure, "stage": stage})
 
 
-def worker(pid: str, tier: str, seed: int, shard: int, nshards: int, outpath: str, soft_s: float) -> None:
-    """one shard: corpus sweep + generated search"""
+CASE_LIMIT = float(os.environ.get("NGOVERIF_CASE_LIMIT", "150"))  # seconds one case may take before the shard gives it up (clingo can hang uninterruptibly inside a C call)
+HUNG_EXIT = 17
+
+
+def worker(pid: str, tier: str, seed: int, shard: int, nshards: int, outpath: str, soft_s: float, resume: Optional[dict] = None) -> None:
+    """one shard: corpus sweep + generated search.  `resume` (written by a previous incarnation of this shard that gave up a
+    hung case) = {"attempt": k, "corpus_next": index of the next corpus entry or None, "generated_left": examples left}"""
     env.setup()
     import faulthandler  # pylint: disable=import-outside-toplevel
     import signal  # pylint: disable=import-outside-toplevel
@@ -173,9 +178,39 @@ def worker(pid: str, tier: str, seed: int, shard: int, nshards: int, outpath: st
     t0 = time.time()
     hb = outpath + ".hb"
 
+    progress: dict = {"t": None, "case": None, "corpus_i": None, "gen_left": 0, "stage": ""}
+    attempt = int((resume or {}).get("attempt", 0))
+
     def beat(case: Any) -> None:
+        progress["t"], progress["case"] = time.time(), case
         with open(hb, "w", encoding="utf8") as fh:
             json.dump(case.to_json() if hasattr(case, "to_json") else str(case), fh)
+
+    def monitor() -> None:
+        # the main thread may sit in an uninterruptible C call of clingo (seen: minutes inside Control.solve before the
+        # first model); give the case up, hand the partial result to the parent and let it restart this shard
+        while True:
+            time.sleep(2.0)
+            t_case = progress["t"]
+            if t_case is None or time.time() - t_case < CASE_LIMIT:
+                continue
+            case = progress["case"]
+            data = stats.to_json()
+            data["hung_case"] = case.to_json() if hasattr(case, "to_json") else str(case)
+            in_corpus = progress["stage"] == "corpus"
+            data["resume"] = {
+                "attempt": attempt + 1,
+                "corpus_next": (progress["corpus_i"] + 1) if in_corpus else None,
+                "generated_left": (mod.budget(tier) // nshards) if in_corpus else max(0, progress["gen_left"]),
+                "extra_done": progress["stage"] == "extra",
+            }
+            with open(outpath, "w", encoding="utf8") as fh:
+                json.dump(data, fh)
+            os._exit(HUNG_EXIT)
+
+    import threading  # pylint: disable=import-outside-toplevel
+
+    threading.Thread(target=monitor, daemon=True).start()
 
     def run_stage(stage: str, strategy: Any, n: int, sseed: int, skip_first: bool = False) -> None:
         if n <= 0:
@@ -199,8 +234,12 @@ def worker(pid: str, tier: str, seed: int, shard: int, nshards: int, outpath: st
             seen["k"] += 1
             if skip_first and seen["k"] == 1:
                 return  # Hypothesis' first example is the all-simplest one (empty instances)
+            progress["stage"] = stage
+            if stage == "generated":
+                progress["gen_left"] = n - seen["k"]
             beat(case)
             handle(mod, pid, case, tier, stats, stage)
+            progress["t"] = None
 
         try:
             test()
@@ -209,14 +248,18 @@ def worker(pid: str, tier: str, seed: int, shard: int, nshards: int, outpath: st
 
     # stage 2: corpus sweep - one Hypothesis run per entry, so the sweep is complete and every
     # choice (instances, declarations) is still a Hypothesis draw
+    corpus_from = 0 if resume is None else (10**9 if resume.get("corpus_next") is None else int(resume["corpus_next"]))
     for i, item in enumerate(mod.corpus_items(tier)):
-        if i % nshards != shard or stats.truncated:
+        if i % nshards != shard or stats.truncated or i < corpus_from:
             continue
+        progress["corpus_i"] = i
         run_stage("corpus", mod.corpus_strategy(item, tier), 2, derive_seed(seed, pid, "corpus", i), skip_first=True)
     # stage 3: generated search
-    n = mod.budget(tier) // nshards
-    run_stage("generated", mod.strategy(tier), n, derive_seed(seed, pid, shard, "generated"))
-    if hasattr(mod, "shard_extra") and not stats.truncated:
+    n = mod.budget(tier) // nshards if resume is None else int(resume.get("generated_left", 0))
+    gen_seed = derive_seed(seed, pid, shard, "generated") if attempt == 0 else derive_seed(seed, pid, shard, "generated", attempt)
+    run_stage("generated", mod.strategy(tier), n, gen_seed)
+    progress["stage"], progress["t"] = "extra", None
+    if hasattr(mod, "shard_extra") and not stats.truncated and not (resume or {}).get("extra_done"):
         res = mod.shard_extra(tier, seed, shard, nshards)
         stats.failures.extend(res.pop("failures", []))
         extra_evals = int(res.pop("evaluations", 0))
@@ -290,14 +333,26 @@ def run_check(pid: str, tier: str, seed: int) -> int:
     os.makedirs(work, exist_ok=True)
     soft = mod.time_budget(tier) if hasattr(mod, "time_budget") else (420.0 if tier == "quick" else 3600.0)
     procs = []
-    for shard in range(NSHARDS):
-        outpath = os.path.join(work, f"shard{shard}.json")
-        cmd = [sys.executable, "-m", "ngoverif.runner", "--worker", pid, tier, str(seed), str(shard), str(NSHARDS), outpath, str(soft)]
+
+    def start(shard: int, resume: Optional[dict]) -> None:
+        attempt = int((resume or {}).get("attempt", 0))
+        outpath = os.path.join(work, f"shard{shard}.json" if not attempt else f"shard{shard}_r{attempt}.json")
+        left = max(30.0, soft - (time.time() - t0))
+        cmd = [sys.executable, "-m", "ngoverif.runner", "--worker", pid, tier, str(seed), str(shard), str(NSHARDS), outpath, str(left if attempt else soft)]
+        if resume:
+            cmd.append(json.dumps(resume))
         procs.append((shard, outpath, subprocess.Popen(cmd, env=env.child_env("0"), cwd=env.VERIF, stdout=subprocess.DEVNULL, stderr=subprocess.PIPE)))
+
+    for shard in range(NSHARDS):
+        start(shard, None)
     hard = soft + 180.0
     harness_errors = []
     hung = []
-    for shard, outpath, proc in procs:
+    given_up = []
+    idx = 0
+    while idx < len(procs):
+        shard, outpath, proc = procs[idx]
+        idx += 1
         try:
             _, err = proc.communicate(timeout=max(5.0, hard - (time.time() - t0)))
         except subprocess.TimeoutExpired:
@@ -310,6 +365,16 @@ def run_check(pid: str, tier: str, seed: int) -> int:
             except Exception:  # pylint: disable=broad-except
                 pass
             hung.append({"shard": shard, "last_case": last})
+            continue
+        if proc.returncode == HUNG_EXIT and os.path.exists(outpath):
+            # the shard gave up one case after CASE_LIMIT seconds: inconclusive for that case, the rest of its budget is
+            # run by a fresh process (other derived seed for the generated stage)
+            with open(outpath, encoding="utf8") as fh:
+                part = json.load(fh)
+            total.merge(part)
+            given_up.append({"shard": shard, "case": part.get("hung_case")})
+            if int(part["resume"]["attempt"]) <= 4 and time.time() - t0 < soft:
+                start(shard, part["resume"])
             continue
         if proc.returncode != 0 or not os.path.exists(outpath):
             harness_errors.append(f"shard {shard} exit {proc.returncode}: {err.decode(errors='replace')[-1500:]}")
@@ -369,6 +434,8 @@ def run_check(pid: str, tier: str, seed: int) -> int:
         "stage_counts": dict(total.stage_counts),
         "known_hits": dict(total.known_hits),
         "inconclusive_hung_shards": hung,
+        "inconclusive_cases_given_up": given_up[:5],
+        "inconclusive_cases_given_up_count": len(given_up),
         "truncated_by_time_budget": total.truncated,
         "shards": NSHARDS,
         "source_rejection_rate": round(rejected / max(1, total.evaluations), 4),
@@ -393,7 +460,7 @@ def run_check(pid: str, tier: str, seed: int) -> int:
     print(
         f"{pid} {tier} seed={seed}: {total.evaluations} cases, {total.comparisons} instance comparisons, "
         f"{len(total.nontrivial)} distinct non-trivial, discards={dict(total.discards)}, known_hits={dict(total.known_hits)}, "
-        f"hung_shards={len(hung)}, wall={wall:.0f}s"
+        f"hung_shards={len(hung)}, given_up={len(given_up)}, wall={wall:.0f}s"
     )
     if rejected / max(1, total.evaluations) > 0.35 and gen_count > 50:
         print(f"HARNESS-ERROR generator health: {rejected}/{total.evaluations} sources rejected by clingo")
@@ -442,8 +509,8 @@ def main(argv: Optional[list[str]] = None) -> int:
     """command line"""
     argv = list(sys.argv[1:] if argv is None else argv)
     if argv and argv[0] == "--worker":
-        _, pid, tier, seed, shard, nshards, outpath, soft = argv
-        worker(pid, tier, int(seed), int(shard), int(nshards), outpath, float(soft))
+        _, pid, tier, seed, shard, nshards, outpath, soft = argv[:8]
+        worker(pid, tier, int(seed), int(shard), int(nshards), outpath, float(soft), json.loads(argv[8]) if len(argv) > 8 else None)
         return 0
     ap = argparse.ArgumentParser()
     ap.add_argument("pid")
